@@ -117,11 +117,13 @@ def _setup_cluster_df(
     assign_loss_prob,
 ):
     cluster_df = pd.read_csv(cluster_file, sep="\t")
+    cluster_df = keep_text_identifiers(cluster_df, cluster_file)
     if "outlier_prob" not in cluster_df.columns:
         if assign_loss_prob:
             column_checks = True
             if "chrom" not in cluster_df.columns:
                 data_df = pd.read_table(data_file)
+                data_df = keep_text_identifiers(data_df, data_file)
                 if "chrom" in data_df.columns:
                     data_df = data_df[["mutation_id", "chrom"]]
                     cluster_df = pd.merge(cluster_df, data_df, how="inner", on=["mutation_id"])
@@ -161,8 +163,25 @@ def compute_outlier_prob(outlier_prob, cluster_size):
         return res, res_not
 
 
+def keep_text_identifiers(df, file_name):
+    """The identifier columns of an input table are free text: strings such as 'NA', 'null' or 'None' in them are
+    names, not missing values. Puts back the identifiers as they are written in the file."""
+    id_cols = [col for col in ("mutation_id", "sample_id") if col in df.columns]
+    if len(id_cols) > 0:
+        try:
+            ids = pd.read_table(file_name, usecols=id_cols, keep_default_na=False)
+        except ValueError:
+            ids = pd.read_csv(file_name, usecols=id_cols, keep_default_na=False)
+        df[id_cols] = ids[id_cols]
+    return df
+
+
 def load_pyclone_data(file_name):
     df = _create_raw_data_df(file_name)
+
+    df = keep_text_identifiers(df, file_name)
+
+    df["sample_id"] = df["sample_id"].astype(str)
 
     df = _remove_cn_zero_mutations(df)
 
